@@ -1,2 +1,698 @@
+(* Proofs for property C14: on every valid history the monitor c14_monitor accepts the trace of the
+   model (model/Tracker.v).  Simulation invariant Inv between the model state and the monitor's
+   bookkeeping; every step preserves it and yields code 0. *)
 From V.lib Require Import Base.
+From Coq Require Import Sorting.Sorted.
 From V.model Require Import MemPool Tracker.
+
+(* ---------------------------------------------------------------------------------------- *)
+(* basic facts *)
+Lemma zlen_eqb0 {A} (l : list A) : (zlen l =? 0) = match l with [] => true | _ => false end.
+Proof. destruct l; reflexivity. Qed.
+
+Lemma mem_elem x l : mem x l = true <-> x ∈ l.
+Proof.
+  unfold mem. rewrite existsb_exists. split.
+  - intros (y & Hy & He). apply Z.eqb_eq in He. subst. apply elem_of_list_In. exact Hy.
+  - intros H. exists x. split; [apply elem_of_list_In; exact H | apply Z.eqb_refl].
+Qed.
+
+Lemma mem_false x l : mem x l = false <-> x ∉ l.
+Proof. rewrite <- mem_elem. destruct (mem x l); split; congruence. Qed.
+
+Lemma mem_app x l1 l2 : mem x (l1 ++ l2) = mem x l1 || mem x l2.
+Proof. apply existsb_app. Qed.
+
+Lemma mem_cons x y l : mem x (y :: l) = (x =? y) || mem x l.
+Proof. reflexivity. Qed.
+
+Lemma mem_nil x : mem x [] = false.
+Proof. reflexivity. Qed.
+
+Lemma mem_filter x (P : Z -> Prop) `{!forall y, Decision (P y)} l :
+  mem x (filter P l) = if decide (P x) then mem x l else false.
+Proof.
+  destruct (decide (P x)) as [p|p].
+  - destruct (mem x l) eqn:E.
+    + apply mem_elem. apply elem_of_list_filter. split; [exact p|]. apply mem_elem. exact E.
+    + apply mem_false. intros Hin. apply elem_of_list_filter in Hin. destruct Hin as [_ Hin].
+      apply mem_elem in Hin. congruence.
+  - apply mem_false. intros Hin. apply elem_of_list_filter in Hin. tauto.
+Qed.
+
+Lemma filter_ext_in {A} (P Q : A -> Prop) `{!forall x, Decision (P x)} `{!forall x, Decision (Q x)}
+    (l : list A) : (forall x, x ∈ l -> (P x <-> Q x)) -> filter P l = filter Q l.
+Proof.
+  induction l as [|a l IH]; intros Hext; [reflexivity|].
+  rewrite !filter_cons.
+  assert (Ha : P a <-> Q a) by (apply Hext; left).
+  rewrite IH by (intros x Hx; apply Hext; right; exact Hx).
+  destruct (decide (P a)), (decide (Q a)); tauto.
+Qed.
+
+(* ---------------------------------------------------------------------------------------- *)
+(* the mempool: only the request map and "the body is held" matter *)
+Notation te := transaction_exists.
+
+(* a request for t would go out now (no request recorded, or the recorded one is older than the window) *)
+Definition due (mp : mempool) (now t : Z) : bool :=
+  match requests mp !! t with Some t0 => now - t0 >? REQ_WINDOW | None => true end.
+
+Lemma add_request_spec mp now t tr :
+  exists mp1,
+    add_request mp now t tr = (mp1, (te mp t, negb (te mp t) && due mp now t)) /\
+    requests mp1 = (if negb (te mp t) && due mp now t then <[t := now]> (requests mp) else requests mp) /\
+    forall t', te mp1 t' = te mp t'.
+Proof.
+  unfold add_request, transaction_exists, due.
+  destruct (txs mp !! t) as [m0|] eqn:Et.
+  - destruct (negb (zlen (outpoints m0) =? 0)) eqn:Eh; simpl.
+    + eexists. split; [reflexivity|]. split; [reflexivity|]. intros t'. simpl.
+      destruct (decide (t' = t)) as [->|Hne].
+      * rewrite lookup_insert, Et. destruct (tr && negb (mtrusted m0)); reflexivity.
+      * rewrite lookup_insert_ne by congruence. reflexivity.
+    + destruct (requests mp !! t) as [t0|] eqn:Er; [destruct (now - t0 >? REQ_WINDOW) eqn:Ew|];
+        (eexists; split; [reflexivity|]; split; [reflexivity|]; intros t'; simpl;
+         destruct (decide (t' = t)) as [->|Hne];
+         [ rewrite lookup_insert, Et; destruct (tr && negb (mtrusted m0)); reflexivity
+         | rewrite lookup_insert_ne by congruence; reflexivity ]).
+  - simpl.
+    destruct (requests mp !! t) as [t0|] eqn:Er; [destruct (now - t0 >? REQ_WINDOW) eqn:Ew|];
+      (eexists; split; [reflexivity|]; split; [reflexivity|]; intros t'; simpl;
+       destruct (decide (t' = t)) as [->|Hne];
+       [ rewrite lookup_insert, Et; reflexivity
+       | rewrite lookup_insert_ne by congruence; reflexivity ]).
+Qed.
+
+Lemma add_transaction_spec mp now t body tr :
+  body <> [] ->
+  exists mp1 r,
+    add_transaction mp now t body tr = (mp1, r) /\
+    requests mp1 = delete t (requests mp) /\
+    forall t', te mp1 t' = if decide (t' = t) then true else te mp t'.
+Proof.
+  intros Hbody. unfold add_transaction, transaction_exists.
+  assert (Hb : negb (zlen body =? 0) = true) by (destruct body; [congruence|reflexivity]).
+  destruct (txs mp !! t) as [m0|] eqn:Et.
+  - destruct (negb (zlen (outpoints m0) =? 0)) eqn:Eh.
+    + eexists _, _. split; [reflexivity|]. split; [reflexivity|]. intros t'. simpl.
+      destruct (decide (t' = t)) as [->|Hne].
+      * rewrite lookup_insert. destruct (tr && negb (mtrusted m0)); exact Eh.
+      * rewrite lookup_insert_ne by congruence. reflexivity.
+    + destruct (add_inputs (inputs mp) [] t body) as [ins c].
+      eexists _, _. split; [reflexivity|]. split; [reflexivity|]. intros t'. simpl.
+      destruct (decide (t' = t)) as [->|Hne].
+      * rewrite lookup_insert. simpl. exact Hb.
+      * rewrite lookup_insert_ne by congruence. reflexivity.
+  - destruct (add_inputs (inputs mp) [] t body) as [ins c].
+    eexists _, _. split; [reflexivity|]. split; [reflexivity|]. intros t'. simpl.
+    destruct (decide (t' = t)) as [->|Hne].
+    + rewrite lookup_insert. simpl. exact Hb.
+    + rewrite lookup_insert_ne by congruence. reflexivity.
+Qed.
+
+Lemma remove_transaction_spec mp t :
+  requests (fst (remove_transaction mp t)) = delete t (requests mp) /\
+  forall t', te (fst (remove_transaction mp t)) t' = if decide (t' = t) then false else te mp t'.
+Proof.
+  unfold remove_transaction, transaction_exists.
+  destruct (txs mp !! t) as [m0|] eqn:Et; simpl; (split; [reflexivity|]); intros t';
+    destruct (decide (t' = t)) as [->|Hne].
+  - rewrite lookup_delete. reflexivity.
+  - rewrite lookup_delete_ne by congruence. reflexivity.
+  - rewrite Et. reflexivity.
+  - reflexivity.
+Qed.
+
+Definition remove_all (mp : mempool) (ts : list Z) : mempool :=
+  fold_left (fun m t => fst (remove_transaction m t)) ts mp.
+
+Lemma remove_all_spec ts : forall mp t,
+  requests (remove_all mp ts) !! t = (if mem t ts then None else requests mp !! t) /\
+  te (remove_all mp ts) t = (if mem t ts then false else te mp t).
+Proof.
+  induction ts as [|a ts IH]; intros mp t; [split; reflexivity|].
+  unfold remove_all. simpl fold_left. fold (remove_all (fst (remove_transaction mp a)) ts).
+  destruct (IH (fst (remove_transaction mp a)) t) as [IH1 IH2].
+  destruct (remove_transaction_spec mp a) as [Hr Ht].
+  rewrite IH1, IH2, Hr, Ht, mem_cons.
+  destruct (decide (t = a)) as [->|Hne].
+  - rewrite Z.eqb_refl, lookup_delete. simpl. destruct (mem a ts); split; reflexivity.
+  - rewrite lookup_delete_ne by congruence.
+    assert (E : (t =? a) = false) by (apply Z.eqb_neq; exact Hne). rewrite E. simpl.
+    split; reflexivity.
+Qed.
+
+(* ---------------------------------------------------------------------------------------- *)
+(* tracker lists *)
+Definition trk (ts : list (list Z)) (c : nat) : list Z := default [] (ts !! c).
+
+Lemma tracker_of_trk s c : tracker_of s c = trk (trackers s) c.
+Proof. reflexivity. Qed.
+
+Lemma trk_insert_eq ts c l : (c < length ts)%nat -> trk (<[c := l]> ts) c = l.
+Proof. intros Hc. unfold trk. rewrite list_lookup_insert by exact Hc. reflexivity. Qed.
+
+Lemma trk_insert_ne ts c c' l : c <> c' -> trk (<[c := l]> ts) c' = trk ts c'.
+Proof. intros Hc. unfold trk. rewrite list_lookup_insert_ne by exact Hc. reflexivity. Qed.
+
+Lemma trk_ge ts c : (length ts <= c)%nat -> trk ts c = [].
+Proof. intros Hc. unfold trk. rewrite lookup_ge_None_2 by exact Hc. reflexivity. Qed.
+
+Lemma trk_map_filter (P : Z -> Prop) `{!forall y, Decision (P y)} ts c :
+  trk (map (filter P) ts) c = filter P (trk ts c).
+Proof.
+  unfold trk. change (map (filter P) ts) with (filter P <$> ts). rewrite list_lookup_fmap.
+  destruct (ts !! c); reflexivity.
+Qed.
+
+Lemma trk_replicate n c : trk (replicate n []) c = [].
+Proof.
+  unfold trk. destruct (replicate n [] !! c) as [l|] eqn:E; [|reflexivity].
+  apply lookup_replicate in E. destruct E as [-> _]. reflexivity.
+Qed.
+
+Notation sorted := (StronglySorted Z.lt).
+
+Lemma elem_of_insert_sorted x l z : z ∈ insert_sorted x l <-> z = x \/ z ∈ l.
+Proof.
+  induction l as [|y l IH]; simpl.
+  - rewrite elem_of_list_singleton, elem_of_nil. tauto.
+  - destruct (x <? y) eqn:E1.
+    + rewrite (elem_of_cons (y :: l)). tauto.
+    + destruct (x =? y) eqn:E2.
+      * apply Z.eqb_eq in E2. subst. rewrite elem_of_cons. tauto.
+      * rewrite !elem_of_cons, IH. tauto.
+Qed.
+
+Lemma insert_sorted_sorted x l : sorted l -> sorted (insert_sorted x l).
+Proof.
+  induction l as [|y l IH]; intros Hs; simpl.
+  - repeat constructor.
+  - destruct (x <? y) eqn:E1.
+    + apply Z.ltb_lt in E1. constructor; [exact Hs|].
+      inversion Hs as [|? ? Hs' Hall]; subst. constructor; [exact E1|].
+      eapply Forall_impl; [exact Hall|]. intros z Hz. simpl in Hz. lia.
+    + destruct (x =? y) eqn:E2; [exact Hs|]. apply Z.ltb_ge in E1. apply Z.eqb_neq in E2.
+      inversion Hs as [|? ? Hs' Hall]; subst. constructor; [apply IH; exact Hs'|].
+      apply Forall_forall. intros z Hz. apply elem_of_insert_sorted in Hz.
+      destruct Hz as [->|Hz]; [lia|]. rewrite Forall_forall in Hall. apply Hall. exact Hz.
+Qed.
+
+Lemma sorted_NoDup l : sorted l -> NoDup l.
+Proof.
+  induction 1 as [|a l Hs IH Hall]; [apply NoDup_nil_2|]. apply NoDup_cons_2; [|exact IH].
+  intros Hin. rewrite Forall_forall in Hall. apply Hall in Hin. lia.
+Qed.
+
+Lemma sorted_filter (P : Z -> Prop) `{!forall y, Decision (P y)} l : sorted l -> sorted (filter P l).
+Proof.
+  induction 1 as [|a l Hs IH Hall]; [constructor|]. rewrite filter_cons.
+  destruct (decide (P a)); [|exact IH]. constructor; [exact IH|].
+  apply Forall_forall. intros z Hz. apply elem_of_list_filter in Hz.
+  rewrite Forall_forall in Hall. apply Hall. tauto.
+Qed.
+
+(* boolean filter *)
+Lemma elem_of_bfilter (f : Z -> bool) l x : x ∈ List.filter f l <-> x ∈ l /\ f x = true.
+Proof. rewrite !elem_of_list_In. apply filter_In. Qed.
+
+Lemma sorted_bfilter (f : Z -> bool) l : sorted l -> sorted (List.filter f l).
+Proof.
+  induction 1 as [|a l Hs IH Hall]; [constructor|]. simpl.
+  destruct (f a); [|exact IH]. constructor; [exact IH|].
+  apply Forall_forall. intros z Hz. apply elem_of_bfilter in Hz.
+  rewrite Forall_forall in Hall. apply Hall. tauto.
+Qed.
+
+Lemma bfilter_ext_in (f g : Z -> bool) l :
+  (forall x, x ∈ l -> f x = g x) -> List.filter f l = List.filter g l.
+Proof.
+  intros Hext. apply List.filter_ext_in. intros x Hx. apply Hext. apply elem_of_list_In. exact Hx.
+Qed.
+
+Lemma mem_bfilter (f : Z -> bool) l x : mem x (List.filter f l) = f x && mem x l.
+Proof.
+  destruct (mem x (List.filter f l)) eqn:E.
+  - apply mem_elem, elem_of_bfilter in E. destruct E as [E1 E2]. apply mem_elem in E1.
+    rewrite E1, E2. reflexivity.
+  - destruct (f x) eqn:Ef; [|reflexivity]. destruct (mem x l) eqn:El; [|reflexivity].
+    apply mem_false in E. destruct E. apply elem_of_bfilter. split; [apply mem_elem; exact El|exact Ef].
+Qed.
+
+(* ---------------------------------------------------------------------------------------- *)
+(* TxTracker.Check: classification of the tracked txids against the mempool at the start *)
+Definition rq (mp : mempool) (now t : Z) : bool := negb (te mp t) && due mp now t.
+Definition kp (mp : mempool) (now t : Z) : bool := negb (te mp t) && negb (due mp now t).
+
+Lemma check_loop_spec now : forall l mp keep0 req0,
+  NoDup l ->
+  exists mp1,
+    check_loop mp now l keep0 req0 =
+      (mp1, keep0 ++ List.filter (kp mp now) l, req0 ++ List.filter (rq mp now) l) /\
+    (forall t, requests mp1 !! t =
+               if mem t (List.filter (rq mp now) l) then Some now else requests mp !! t) /\
+    (forall t, te mp1 t = te mp t).
+Proof.
+  induction l as [|a l IH]; intros mp keep0 req0 Hnd.
+  - exists mp. simpl. rewrite !app_nil_r. split; [reflexivity|]. split; intros; reflexivity.
+  - apply NoDup_cons in Hnd. destruct Hnd as [Ha Hnd].
+    destruct (add_request_spec mp now a false) as (mp' & Hreq & Hrq' & Hte').
+    fold (rq mp now a) in Hreq, Hrq'.
+    assert (Hdue : forall t, t ∈ l -> due mp' now t = due mp now t).
+    { intros t Ht. unfold due. rewrite Hrq'. destruct (rq mp now a); [|reflexivity].
+      rewrite lookup_insert_ne; [reflexivity|]. intros ->. contradiction. }
+    assert (Hk : List.filter (kp mp' now) l = List.filter (kp mp now) l).
+    { apply bfilter_ext_in. intros t Ht. unfold kp. rewrite Hte', (Hdue t Ht). reflexivity. }
+    assert (Hr : List.filter (rq mp' now) l = List.filter (rq mp now) l).
+    { apply bfilter_ext_in. intros t Ht. unfold rq. rewrite Hte', (Hdue t Ht). reflexivity. }
+    simpl check_loop. rewrite Hreq. simpl List.filter. rewrite <- Hk, <- Hr.
+    assert (Ekp : kp mp now a = negb (te mp a) && negb (due mp now a)) by reflexivity.
+    assert (Erq : rq mp now a = negb (te mp a) && due mp now a) by reflexivity.
+    destruct (te mp a) eqn:Eh; [|destruct (due mp now a) eqn:Ed]; simpl in Ekp, Erq;
+      rewrite Ekp, Erq; rewrite Erq in Hrq'.
+    + destruct (IH mp' keep0 req0 Hnd) as (mp1 & Hcl & Hq & Ht).
+      exists mp1. split; [exact Hcl|]. split.
+      * intros t. rewrite Hq, Hrq'. reflexivity.
+      * intros t. rewrite Ht. apply Hte'.
+    + destruct (IH mp' keep0 (req0 ++ [a]) Hnd) as (mp1 & Hcl & Hq & Ht).
+      exists mp1. split; [rewrite Hcl, <- app_assoc; reflexivity|]. split.
+      * intros t. rewrite Hq, Hrq', mem_cons.
+        destruct (decide (t = a)) as [->|Hne].
+        -- rewrite Z.eqb_refl, lookup_insert. simpl. destruct (mem a _); reflexivity.
+        -- assert (E : (t =? a) = false) by (apply Z.eqb_neq; exact Hne). rewrite E. simpl.
+           rewrite lookup_insert_ne by congruence. reflexivity.
+      * intros t. rewrite Ht. apply Hte'.
+    + destruct (IH mp' (keep0 ++ [a]) req0 Hnd) as (mp1 & Hcl & Hq & Ht).
+      exists mp1. split; [rewrite Hcl, <- app_assoc; reflexivity|]. split.
+      * intros t. rewrite Hq, Hrq'. reflexivity.
+      * intros t. rewrite Ht. apply Hte'.
+Qed.
+
+(* ---------------------------------------------------------------------------------------- *)
+(* the monitor's request table *)
+Definition lr (l : list (Z * Z)) (t : Z) : option Z :=
+  match find (fun e => fst e =? t) l with Some e => Some (snd e) | None => None end.
+
+Lemma last_req_lr m t : last_req m t = lr (k_last m) t.
+Proof. reflexivity. Qed.
+
+Lemma lr_cons a b l t : lr ((a, b) :: l) t = if a =? t then Some b else lr l t.
+Proof. unfold lr. simpl. destruct (a =? t); reflexivity. Qed.
+
+Lemma lr_filter (Q : Z * Z -> Prop) `{!forall e, Decision (Q e)} (f : Z -> bool) l t :
+  (forall e, Q e <-> f (fst e) = true) ->
+  lr (filter Q l) t = if f t then lr l t else None.
+Proof.
+  intros HQ. induction l as [|[a b] l IH]; [destruct (f t); reflexivity|].
+  rewrite filter_cons. destruct (decide (Q (a, b))) as [q|q].
+  - rewrite !lr_cons, IH. destruct (a =? t) eqn:E; [|reflexivity].
+    apply Z.eqb_eq in E. subst. apply HQ in q. simpl in q. rewrite q. reflexivity.
+  - rewrite lr_cons, IH. destruct (a =? t) eqn:E; [|reflexivity].
+    apply Z.eqb_eq in E. subst. destruct (f t) eqn:Ef; [|reflexivity].
+    destruct q. apply HQ. exact Ef.
+Qed.
+
+Lemma lr_set_last m t t' :
+  lr (set_last m t) t' = if t' =? t then Some (k_clock m) else lr (k_last m) t'.
+Proof.
+  unfold set_last. rewrite lr_cons, Z.eqb_sym. destruct (t' =? t) eqn:E; [reflexivity|].
+  rewrite (lr_filter _ (fun x => negb (x =? t))).
+  - rewrite E. reflexivity.
+  - intros e. rewrite negb_true_iff, Z.eqb_neq. reflexivity.
+Qed.
+
+Lemma active_lr m t :
+  active m t = match lr (k_last m) t with Some t0 => k_clock m - t0 <=? REQ_WINDOW | None => false end.
+Proof. reflexivity. Qed.
+
+Lemma active_due m mp now t :
+  k_clock m = now -> lr (k_last m) t = requests mp !! t -> active m t = negb (due mp now t).
+Proof.
+  intros Hc Hl. rewrite active_lr. unfold due. rewrite Hl, Hc.
+  destruct (requests mp !! t) as [t0|]; [|reflexivity].
+  rewrite Z.gtb_ltb.
+  destruct (Z.ltb_spec REQ_WINDOW (now - t0)), (Z.leb_spec (now - t0) REQ_WINDOW);
+    try reflexivity; lia.
+Qed.
+
+(* the getdata messages of one check *)
+Definition req_fold : Z * tm -> Z -> Z * tm :=
+  fun '(code, m) t => if code =? 0 then on_request m t else (code, m).
+
+Lemma req_fold_ok reqs : forall m,
+  NoDup reqs ->
+  (forall t, t ∈ reqs -> mem t (k_held m) = false /\ active m t = false) ->
+  exists L,
+    fold_left req_fold reqs (0, m) = (0, TM L (k_held m) (k_tracked m) (k_clock m) (k_confirmed m)) /\
+    forall t, lr L t = if mem t reqs then Some (k_clock m) else lr (k_last m) t.
+Proof.
+  induction reqs as [|a reqs IH]; intros m Hnd Hok.
+  - exists (k_last m). split; [destruct m; reflexivity|]. intros; reflexivity.
+  - apply NoDup_cons in Hnd. destruct Hnd as [Ha Hnd].
+    destruct (Hok a) as [Hh Hact]; [left|].
+    change (fold_left req_fold (a :: reqs) (0, m)) with (fold_left req_fold reqs (on_request m a)).
+    unfold on_request. rewrite Hh, Hact.
+    set (m' := TM (set_last m a) (k_held m) (k_tracked m) (k_clock m) (k_confirmed m)).
+    destruct (IH m' Hnd) as (L & HL & Hlr).
+    { intros t Ht. destruct (Hok t) as [Hh' Hact']; [right; exact Ht|]. split; [exact Hh'|].
+      rewrite active_lr in *. simpl. rewrite lr_set_last.
+      assert (E : (t =? a) = false) by (apply Z.eqb_neq; intros ->; contradiction).
+      rewrite E. exact Hact'. }
+    exists L. split; [exact HL|]. intros t. rewrite Hlr, mem_cons. simpl. rewrite lr_set_last.
+    destruct (t =? a); simpl; [destruct (mem t reqs)|]; reflexivity.
+Qed.
+
+Lemma trk_insert_sub ts c l c' x :
+  x ∈ trk (<[c := l]> ts) c' -> (c' = c /\ x ∈ l) \/ x ∈ trk ts c'.
+Proof.
+  destruct (decide (c = c')) as [<-|Hne].
+  - destruct (decide (c < length ts)%nat) as [Hlt|Hge].
+    + rewrite trk_insert_eq by exact Hlt. auto.
+    + rewrite list_insert_ge by lia. auto.
+  - rewrite trk_insert_ne by exact Hne. auto.
+Qed.
+
+Lemma trk_insert_sorted ts c l :
+  (forall c', sorted (trk ts c')) -> sorted l -> forall c', sorted (trk (<[c := l]> ts) c').
+Proof.
+  intros Hts Hl c'. destruct (decide (c = c')) as [<-|Hne].
+  - destruct (decide (c < length ts)%nat) as [Hlt|Hge].
+    + rewrite trk_insert_eq by exact Hlt. exact Hl.
+    + rewrite list_insert_ge by lia. apply Hts.
+  - rewrite trk_insert_ne by exact Hne. apply Hts.
+Qed.
+
+(* ---------------------------------------------------------------------------------------- *)
+(* unfolding of the monitor step on the observation shapes of the model *)
+Lemma c14_step_OInv m c t r :
+  c14_step m (OInv c t) [OK; r] =
+    let m' := TM (k_last m) (k_held m) (k_tracked m) (k_clock m) (filter (fun x => x ≠ t) (k_confirmed m)) in
+    if negb (r =? 0) then
+      let '(code, m1) := on_request m' t in
+      (code, TM (k_last m1) (k_held m1) (untrack c t (k_tracked m1)) (k_clock m1) (k_confirmed m1))
+    else if mem t (k_held m') then (0, m')
+    else if active m' t
+    then (0, TM (k_last m') (k_held m') ((c, t) :: untrack c t (k_tracked m')) (k_clock m') (k_confirmed m'))
+    else (403, m').
+Proof. reflexivity. Qed.
+
+Lemma c14_step_OCheck m c x reqs :
+  c14_step m (OCheck c) (x :: reqs) =
+    let due := filter (fun e : nat * Z => (Nat.eqb (fst e) c && negb (mem (snd e) (k_held m)) && negb (active m (snd e))) = true)
+                      (k_tracked m) in
+    if existsb (fun e => negb (mem (snd e) reqs)) due then (405, m) else
+    let '(code, m1) := fold_left req_fold reqs (0, m) in
+    (code, TM (k_last m1) (k_held m1)
+              (filter (fun e : nat * Z => negb (Nat.eqb (fst e) c && (mem (snd e) reqs || mem (snd e) (k_held m))) = true) (k_tracked m1))
+              (k_clock m1) (k_confirmed m1)).
+Proof. reflexivity. Qed.
+
+Lemma c14_step_OBody m t body tr ob :
+  c14_step m (OBody t body tr) ob =
+    (0, TM (filter (fun e => fst e ≠ t) (k_last m))
+           (if (zlen body =? 0) || mem t (k_held m) then k_held m else t :: k_held m)
+           (untrack 0 t (k_tracked m)) (k_clock m) (k_confirmed m)).
+Proof. destruct ob as [|? [|? [|? ?]]]; reflexivity. Qed.
+
+Lemma c14_step_OConfirm m ts ob :
+  c14_step m (OConfirm ts) ob =
+    (0, TM (filter (fun e => negb (mem (fst e) ts) = true) (k_last m))
+           (filter (fun x => negb (mem x ts) = true) (k_held m))
+           (filter (fun e => negb (mem (snd e) ts) = true) (k_tracked m)) (k_clock m) (ts ++ k_confirmed m)).
+Proof. destruct ob as [|? [|? [|? ?]]]; reflexivity. Qed.
+
+Lemma c14_step_OAdvance m dt ob :
+  c14_step m (OAdvance dt) ob = (0, TM (k_last m) (k_held m) (k_tracked m) (k_clock m + dt) (k_confirmed m)).
+Proof. destruct ob as [|? [|? [|? ?]]]; reflexivity. Qed.
+
+Lemma c14_step_OTracked m c x l :
+  c14_step m (OTracked c) (x :: l) = ((if existsb (fun t => mem t (k_confirmed m)) l then 406 else 0), m).
+Proof. reflexivity. Qed.
+
+(* ---------------------------------------------------------------------------------------- *)
+(* the simulation invariant *)
+Record Inv (n : nat) (s : tstate) (m : tm) : Prop := {
+  inv_clock : k_clock m = tnow s;
+  inv_last : forall t, lr (k_last m) t = requests (tmp s) !! t;
+  inv_held : forall t, mem t (k_held m) = te (tmp s) t;
+  inv_tracked : forall c t, (c, t) ∈ k_tracked m -> t ∈ trk (trackers s) c;
+  inv_conf : forall c t, t ∈ trk (trackers s) c -> mem t (k_confirmed m) = false;
+  inv_len : length (trackers s) = n;
+  inv_sorted : forall c, sorted (trk (trackers s) c);
+}.
+
+Ltac prj := cbn [tmp trackers tnow k_last k_held k_tracked k_clock k_confirmed set_tracker fst snd] in *.
+
+Lemma Inv_init n : Inv n (t_init n) (TM [] [] [] 0 []).
+Proof.
+  constructor; prj; unfold t_init; prj.
+  - reflexivity.
+  - intros t. unfold mp_init. cbn [requests]. rewrite lookup_empty. reflexivity.
+  - intros t. unfold transaction_exists, mp_init. cbn [txs]. rewrite lookup_empty. reflexivity.
+  - intros c t Hin. apply elem_of_nil in Hin. contradiction.
+  - intros; reflexivity.
+  - apply replicate_length.
+  - intros c. rewrite trk_replicate. constructor.
+Qed.
+
+Lemma untrack_elem c t l e : e ∈ untrack c t l -> e ∈ l /\ ~ (fst e = c /\ snd e = t).
+Proof.
+  unfold untrack. intros Hin. apply elem_of_list_filter in Hin. destruct Hin as [Hp Hin].
+  split; [exact Hin|]. intros [H1 H2]. subst. rewrite Nat.eqb_refl, Z.eqb_refl in Hp. discriminate.
+Qed.
+
+Lemma step_OInv n s m c t :
+  Inv n s m -> (c < n)%nat ->
+  exists s1 ob m1, step s (OInv c t) = (s1, ob) /\ c14_step m (OInv c t) ob = (0, m1) /\ Inv n s1 m1.
+Proof.
+  intros [Hclk Hlast Hheld Htr Hconf Hlen Hsort] Hc.
+  destruct (add_request_spec (tmp s) (tnow s) t (Nat.eqb c 0)) as (mp1 & Hreq & Hrq & Hte).
+  assert (Hact : active (TM (k_last m) (k_held m) (k_tracked m) (k_clock m)
+                            (filter (fun x => x ≠ t) (k_confirmed m))) t
+                 = negb (due (tmp s) (tnow s) t)).
+  { apply active_due; [exact Hclk | apply Hlast]. }
+  assert (Hcf : forall c' t', t' ∈ trk (trackers s) c' ->
+                  mem t' (filter (fun x => x ≠ t) (k_confirmed m)) = false).
+  { intros c' t' Hin. rewrite mem_filter. destruct (decide (t' ≠ t)); [|reflexivity].
+    eapply Hconf; exact Hin. }
+  unfold step, inv_step. rewrite Hreq.
+  destruct (te (tmp s) t) eqn:Eh; [|destruct (due (tmp s) (tnow s) t) eqn:Ed];
+    cbn [negb andb b2z] in *.
+  - (* the body is held *)
+    eexists _, _, _. split; [reflexivity|]. split.
+    + rewrite c14_step_OInv. change (negb (0 =? 0)) with false. cbv beta iota zeta. prj.
+      rewrite Hheld, Eh. reflexivity.
+    + constructor; prj; try assumption.
+      * intros t'. rewrite Hrq. apply Hlast.
+      * intros t'. rewrite Hte. apply Hheld.
+  - (* requested *)
+    eexists _, _, _. split; [reflexivity|]. split.
+    + rewrite c14_step_OInv. change (negb (1 =? 0)) with true. cbv beta iota zeta.
+      unfold on_request. rewrite Hact. prj. rewrite Hheld, Eh. cbn [negb]. reflexivity.
+    + constructor; prj; try assumption.
+      * intros t'. rewrite lr_set_last. prj. rewrite Hrq.
+        destruct (t' =? t) eqn:E.
+        -- apply Z.eqb_eq in E. subst. rewrite lookup_insert, Hclk. reflexivity.
+        -- apply Z.eqb_neq in E. rewrite lookup_insert_ne by congruence. apply Hlast.
+      * intros t'. rewrite Hte. apply Hheld.
+      * intros c' t' Hin. apply untrack_elem in Hin. apply Htr. tauto.
+  - (* another request is active: tracked *)
+    eexists _, _, _. split; [reflexivity|]. split.
+    + rewrite c14_step_OInv. change (negb (0 =? 0)) with false. cbv beta iota zeta.
+      rewrite Hact. prj. rewrite Hheld, Eh. cbn [negb]. reflexivity.
+    + rewrite tracker_of_trk. constructor; prj.
+      * exact Hclk.
+      * intros t'. rewrite Hrq. apply Hlast.
+      * intros t'. rewrite Hte. apply Hheld.
+      * intros c' t' Hin. apply elem_of_cons in Hin. destruct Hin as [Heq|Hin].
+        -- inversion Heq; subst. rewrite trk_insert_eq by lia. apply elem_of_insert_sorted. auto.
+        -- apply untrack_elem in Hin. destruct Hin as [Hin _]. apply Htr in Hin.
+           destruct (decide (c = c')) as [<-|Hne].
+           ++ rewrite trk_insert_eq by lia. apply elem_of_insert_sorted. auto.
+           ++ rewrite trk_insert_ne by exact Hne. exact Hin.
+      * intros c' t' Hin. apply trk_insert_sub in Hin. destruct Hin as [[-> Hin]|Hin].
+        -- apply elem_of_insert_sorted in Hin. destruct Hin as [->|Hin].
+           ++ rewrite mem_filter. destruct (decide (t ≠ t)); [contradiction|reflexivity].
+           ++ eapply Hcf; exact Hin.
+        -- eapply Hcf; exact Hin.
+      * rewrite insert_length. exact Hlen.
+      * apply trk_insert_sorted; [exact Hsort|]. apply insert_sorted_sorted, Hsort.
+Qed.
+
+Lemma step_OCheck n s m c :
+  Inv n s m -> (c < n)%nat ->
+  exists s1 ob m1, step s (OCheck c) = (s1, ob) /\ c14_step m (OCheck c) ob = (0, m1) /\ Inv n s1 m1.
+Proof.
+  intros [Hclk Hlast Hheld Htr Hconf Hlen Hsort] Hc.
+  set (l := trk (trackers s) c).
+  assert (Hsl : sorted l) by apply Hsort.
+  destruct (check_loop_spec (tnow s) l (tmp s) [] [] (sorted_NoDup _ Hsl)) as (mp1 & Hcl & Hq & Ht).
+  set (reqs := List.filter (rq (tmp s) (tnow s)) l) in *.
+  set (keep := List.filter (kp (tmp s) (tnow s)) l) in *.
+  assert (Hactive : forall t, active m t = negb (due (tmp s) (tnow s) t)).
+  { intros t. apply active_due; [exact Hclk | apply Hlast]. }
+  assert (Hreqs : forall t, t ∈ reqs -> mem t (k_held m) = false /\ active m t = false).
+  { intros t Hin. apply elem_of_bfilter in Hin. destruct Hin as [_ Hrq]. unfold rq in Hrq.
+    apply andb_true_iff in Hrq. destruct Hrq as [H1 H2]. apply negb_true_iff in H1.
+    rewrite Hheld, Hactive, H1, H2. auto. }
+  unfold step, tracker_check. rewrite tracker_of_trk. fold l. rewrite Hcl. cbn [app].
+  cbv beta iota zeta.
+  destruct (req_fold_ok reqs m (sorted_NoDup _ (sorted_bfilter _ _ Hsl)) Hreqs) as (L & HL & HlrL).
+  eexists _, _, _. split; [reflexivity|]. split.
+  - rewrite c14_step_OCheck. cbv zeta.
+    match goal with |- (if existsb ?f ?d then _ else _) = _ =>
+      assert (Hex : existsb f d = false) end.
+    { apply not_true_is_false. intros Hex. apply existsb_exists in Hex.
+      destruct Hex as ([c' t'] & Hin & Hneg). apply elem_of_list_In, elem_of_list_filter in Hin.
+      destruct Hin as [Hp Hin]. prj. apply negb_true_iff, mem_false in Hneg.
+      apply andb_true_iff in Hp. destruct Hp as [Hp H3]. apply andb_true_iff in Hp.
+      destruct Hp as [H1 H2]. apply Nat.eqb_eq in H1. subst c'.
+      apply negb_true_iff in H2, H3. apply Htr in Hin. destruct Hneg.
+      apply elem_of_bfilter. split; [exact Hin|]. unfold rq.
+      rewrite <- Hheld, H2. rewrite Hactive in H3. apply negb_false_iff in H3. rewrite H3. reflexivity. }
+    rewrite Hex, HL. reflexivity.
+  - constructor; prj.
+    + exact Hclk.
+    + intros t. rewrite HlrL, Hq, Hclk, Hlast. reflexivity.
+    + intros t. rewrite Ht. apply Hheld.
+    + intros c' t' Hin. apply elem_of_list_filter in Hin. destruct Hin as [Hp Hin]. prj.
+      apply Htr in Hin. destruct (decide (c = c')) as [<-|Hne].
+      * rewrite trk_insert_eq by lia. rewrite Nat.eqb_refl in Hp. cbn [andb] in Hp.
+        apply negb_true_iff, orb_false_iff in Hp. destruct Hp as [H1 H2].
+        apply elem_of_bfilter. split; [exact Hin|].
+        unfold reqs in H1. rewrite mem_bfilter in H1. fold l in Hin. apply mem_elem in Hin.
+        rewrite Hin, andb_true_r in H1. unfold rq in H1. unfold kp.
+        rewrite Hheld in H2. rewrite H2 in *. cbn [negb andb] in *. rewrite H1. reflexivity.
+      * rewrite trk_insert_ne by exact Hne. exact Hin.
+    + intros c' t' Hin. apply trk_insert_sub in Hin. destruct Hin as [[-> Hin]|Hin].
+      * apply elem_of_bfilter in Hin. destruct Hin as [Hin _]. eapply Hconf; exact Hin.
+      * eapply Hconf; exact Hin.
+    + rewrite insert_length. exact Hlen.
+    + apply trk_insert_sorted; [exact Hsort|]. apply sorted_bfilter. exact Hsl.
+Qed.
+
+Lemma step_OBody n s m t body tr :
+  Inv n s m -> body <> [] ->
+  exists s1 ob m1, step s (OBody t body tr) = (s1, ob) /\ c14_step m (OBody t body tr) ob = (0, m1) /\ Inv n s1 m1.
+Proof.
+  intros [Hclk Hlast Hheld Htr Hconf Hlen Hsort] Hbody.
+  destruct (add_transaction_spec (tmp s) (tnow s) t body tr Hbody) as (mp1 & r & Hadd & Hrq & Hte).
+  unfold step, body_step. rewrite Hadd, tracker_of_trk. cbv beta iota zeta.
+  eexists _, _, _. split; [reflexivity|]. split; [apply c14_step_OBody|].
+  assert (Hz : (zlen body =? 0) = false) by (destruct body; [congruence|reflexivity]).
+  rewrite Hz. cbn [orb].
+  constructor; prj.
+  - exact Hclk.
+  - intros t'. rewrite (lr_filter _ (fun x => negb (x =? t))).
+    + rewrite Hrq. destruct (t' =? t) eqn:E; cbn [negb].
+      * apply Z.eqb_eq in E. subst. rewrite lookup_delete. reflexivity.
+      * apply Z.eqb_neq in E. rewrite lookup_delete_ne by congruence. apply Hlast.
+    + intros e. rewrite negb_true_iff, Z.eqb_neq. reflexivity.
+  - intros t'. rewrite Hte. destruct (mem t (k_held m)) eqn:Em.
+    + destruct (decide (t' = t)) as [->|Hne]; [exact Em | apply Hheld].
+    + rewrite mem_cons. destruct (decide (t' = t)) as [->|Hne].
+      * rewrite Z.eqb_refl. reflexivity.
+      * assert (E : (t' =? t) = false) by (apply Z.eqb_neq; exact Hne). rewrite E. apply Hheld.
+  - intros c' t' Hin. apply untrack_elem in Hin. destruct Hin as [Hin Hne]. prj. apply Htr in Hin.
+    destruct (decide (0%nat = c')) as [<-|Hc'].
+    + destruct (decide (0 < length (trackers s))%nat) as [Hlt|Hge].
+      * rewrite trk_insert_eq by exact Hlt. apply elem_of_list_filter. split; [|exact Hin].
+        intros ->. apply Hne. auto.
+      * rewrite trk_ge in Hin by lia. apply elem_of_nil in Hin. contradiction.
+    + rewrite trk_insert_ne by exact Hc'. exact Hin.
+  - intros c' t' Hin. apply trk_insert_sub in Hin. destruct Hin as [[-> Hin]|Hin].
+    + apply elem_of_list_filter in Hin. destruct Hin as [_ Hin]. eapply Hconf; exact Hin.
+    + eapply Hconf; exact Hin.
+  - rewrite insert_length. exact Hlen.
+  - apply trk_insert_sorted; [exact Hsort|]. apply sorted_filter, Hsort.
+Qed.
+
+Lemma step_OConfirm n s m ts :
+  Inv n s m ->
+  exists s1 ob m1, step s (OConfirm ts) = (s1, ob) /\ c14_step m (OConfirm ts) ob = (0, m1) /\ Inv n s1 m1.
+Proof.
+  intros [Hclk Hlast Hheld Htr Hconf Hlen Hsort].
+  unfold step, confirm_step. fold (remove_all (tmp s) ts).
+  eexists _, _, _. split; [reflexivity|]. split; [apply c14_step_OConfirm|].
+  constructor; prj.
+  - exact Hclk.
+  - intros t. destruct (remove_all_spec ts (tmp s) t) as [Hr _]. rewrite Hr.
+    rewrite (lr_filter _ (fun x => negb (mem x ts))) by (intros e; reflexivity).
+    destruct (mem t ts); cbn [negb]; [reflexivity|apply Hlast].
+  - intros t. destruct (remove_all_spec ts (tmp s) t) as [_ Hr]. rewrite Hr, mem_filter.
+    destruct (mem t ts); cbn [negb].
+    + destruct (decide (false = true)); [discriminate|reflexivity].
+    + destruct (decide (true = true)); [apply Hheld|contradiction].
+  - intros c t Hin. apply elem_of_list_filter in Hin. destruct Hin as [Hp Hin]. prj.
+    rewrite trk_map_filter. apply elem_of_list_filter. split; [exact Hp|]. apply Htr. exact Hin.
+  - intros c t Hin. rewrite trk_map_filter in Hin. apply elem_of_list_filter in Hin.
+    destruct Hin as [Hp Hin]. apply negb_true_iff in Hp. rewrite mem_app, Hp. cbn [orb].
+    eapply Hconf; exact Hin.
+  - rewrite map_length. exact Hlen.
+  - intros c. rewrite trk_map_filter. apply sorted_filter, Hsort.
+Qed.
+
+Lemma step_OAdvance n s m dt :
+  Inv n s m ->
+  exists s1 ob m1, step s (OAdvance dt) = (s1, ob) /\ c14_step m (OAdvance dt) ob = (0, m1) /\ Inv n s1 m1.
+Proof.
+  intros [Hclk Hlast Hheld Htr Hconf Hlen Hsort].
+  unfold step. eexists _, _, _. split; [reflexivity|]. split; [apply c14_step_OAdvance|].
+  constructor; prj; try assumption. rewrite Hclk. reflexivity.
+Qed.
+
+Lemma step_OTracked n s m c :
+  Inv n s m ->
+  exists s1 ob m1, step s (OTracked c) = (s1, ob) /\ c14_step m (OTracked c) ob = (0, m1) /\ Inv n s1 m1.
+Proof.
+  intros HI. pose proof HI as [Hclk Hlast Hheld Htr Hconf Hlen Hsort].
+  unfold step. rewrite tracker_of_trk. eexists _, _, _. split; [reflexivity|]. split; [|exact HI].
+  rewrite c14_step_OTracked.
+  assert (Hex : existsb (fun t => mem t (k_confirmed m)) (trk (trackers s) c) = false).
+  { apply not_true_is_false. intros Hex. apply existsb_exists in Hex. destruct Hex as (t & Hin & Hm).
+    apply elem_of_list_In in Hin. rewrite (Hconf c t Hin) in Hm. discriminate. }
+  rewrite Hex. reflexivity.
+Qed.
+
+(* ---------------------------------------------------------------------------------------- *)
+Definition op_valid (nconn : nat) (o : op) : bool :=
+  match o with
+  | OInv c _ | OCheck c | OTracked c => (c <? nconn)%nat
+  | OAdvance dt => 0 <=? dt
+  | OBody _ body _ => negb (zlen body =? 0)
+  | _ => true
+  end.
+
+Lemma c14_valid_forallb n ops : c14_valid n ops = forallb (op_valid n) ops.
+Proof. reflexivity. Qed.
+
+Lemma step_ok n s m o :
+  Inv n s m -> op_valid n o = true ->
+  exists s1 ob m1, step s o = (s1, ob) /\ c14_step m o ob = (0, m1) /\ Inv n s1 m1.
+Proof.
+  intros HI Hv. destruct o as [c t|c|t body tr|ts|dt|c]; cbn [op_valid] in Hv.
+  - apply step_OInv; [exact HI|]. apply Nat.ltb_lt. exact Hv.
+  - apply step_OCheck; [exact HI|]. apply Nat.ltb_lt. exact Hv.
+  - apply step_OBody; [exact HI|]. intros ->. discriminate.
+  - apply step_OConfirm. exact HI.
+  - apply step_OAdvance. exact HI.
+  - apply step_OTracked. exact HI.
+Qed.
+
+Lemma c14_from_ok n ops : forall s m i,
+  Inv n s m -> forallb (op_valid n) ops = true -> c14_from m i ops (run_from s ops) = None.
+Proof.
+  induction ops as [|o ops IH]; intros s m i HI Hv; [reflexivity|].
+  cbn [forallb] in Hv. apply andb_true_iff in Hv. destruct Hv as [Hv1 Hv2].
+  destruct (step_ok n s m o HI Hv1) as (s1 & ob & m1 & Hs & Hm & HI1).
+  cbn [run_from]. rewrite Hs. cbn [c14_from]. rewrite Hm.
+  change (negb (0 =? 0)) with false. cbv beta iota. apply IH; assumption.
+Qed.
+
+Theorem c14_monitor_passes : forall (nconn : nat) (ops : list op),
+  c14_valid nconn ops = true -> c14_monitor ops (run nconn ops) = None.
+Proof.
+  intros nconn ops Hv. rewrite c14_valid_forallb in Hv.
+  unfold c14_monitor, run. apply (c14_from_ok nconn); [apply Inv_init | exact Hv].
+Qed.
